@@ -1,7 +1,7 @@
 (** Canonical text rendering of model results for the correspondence check (the implementation
     worker harness/impl_worker.py renders the real objects in the same format). *)
 From Coq Require Import ZArith List String Ascii Bool.
-From TV Require Import Layout.Types Base.Bytes Model.Monad Model.Ints Model.Decoder Model.Message Model.Pump.
+From TV Require Import Layout.Types Base.Bytes Model.Monad Model.Ints Model.Decoder Model.Message Model.Pump Model.Object.
 Import ListNotations.
 Open Scope string_scope.
 Open Scope list_scope.
@@ -41,7 +41,7 @@ Definition show_info (c : scinfo) : string :=
   show_opath (si_path c) +++ " " +++ show_oz (si_max c) +++ " " +++ dec_string (si_already c).
 
 Definition show_vsrc (s : vsrc) : string :=
-  match s with VSType => "type" | VSCommandCodes => "cc" | VSSelection => "sel" end.
+  match s with VSType => "type" | VSCommandCodes => "cc" | VSSelection => "sel" | VSNoCommand => "nocc" end.
 
 Definition show_err (e : err) : string :=
   match e with
@@ -116,5 +116,16 @@ Definition run_decode (T : tables) (abort : bool) (r : root) (input : list Z) : 
 Definition run_obj (T : tables) (r : root) (input : list Z) : string :=
   match decode_obj T true r input with
   | Some v => show_value v
+  | None => "None"
+  end.
+
+(** [obj_to_events] applied to the decoder's by-product object: one event per item, without pull counts *)
+Definition show_event_plain (ev : event) : string :=
+  "E /" +++ show_path (epath ev) +++ " " +++ show_tyid (ety ev) +++ " " +++
+  match evalue ev with None => "..." | Some z => dec_string z end.
+
+Definition run_objev (T : tables) (r : root) (input : list Z) : string :=
+  match decode_obj T true r input with
+  | Some v => sconcat ";" (map show_event_plain (obj_to_events T r v))
   | None => "None"
   end.
